@@ -9,7 +9,7 @@ if prof == 'tlc':
     scs = fp.tlc_scenarios(w, n, 14, vlib.seed())
 else:
     scs = fp.gen_scenarios(vlib.seed(), n, prof)
-lines, wall = fp.replay(w, scs)
+lines, wall = fp.replay(w, scs, runloop=bool(os.environ.get('RUNLOOP')))
 print("replayed", len(scs), "scenarios", len(lines), "lines in %.1fs" % wall)
 rejs, r = fp.validate(w, lines)
 print("tlc wall %.1fs states %d" % (r['wall_s'], r['distinct']))
